@@ -4,7 +4,7 @@ T = "testtools.tags:"
 RR = "testtools.testresult.real:"
 
 TR_FIELDS = dict(failfast="bool", tb_locals="bool", _tags="?TagContext", errors="list", failures="list",
-                 unexpectedSuccesses="list", expectedFailures="list", skip_reasons="dict", testsRun="int",
+                 unexpectedSuccesses="list", expectedFailures="list", skip_reasons="dict[any=>list]", testsRun="int",
                  shouldStop="bool", skipped="list", _TestResult__now="any")
 
 
